@@ -2152,6 +2152,16 @@ impl Checker {
             .iter()
             .any(|w| w.snap.resources != workers[0].snap.resources);
         let busy = workers.iter().any(|w| w.free != w.snap.resources);
+        #[allow(clippy::type_complexity)]
+        let mut deferred: Option<(
+            String,
+            tako::TaskId,
+            i64,
+            tako::resources::ResourceRqId,
+            u32,
+            Vec<u64>,
+            Vec<tako::TaskId>,
+        )> = None;
         for h in &left {
             let ph = prio(h);
             for w in &workers {
@@ -2196,12 +2206,29 @@ impl Checker {
                     continue;
                 }
                 // the stated exception: another worker could run h but is too busy now
-                let excused = workers.iter().any(|o| {
-                    o.id != w.id
-                        && capable(o, h)
-                        && !amounts(h, &o.snap.resources)
+                // (every worker the scheduler sees counts here, also one whose books are
+                // off because of a known finding, or one that holds a multi-node task)
+                let excused = prev.workers.iter().any(|o| {
+                    // (a worker that was told to stop is still a candidate for the scheduler
+                    // until it disconnects; the statement's domain has no such workers, so it
+                    // counts for the excuse)
+                    if o.id.as_num() == w.id {
+                        return false;
+                    }
+                    let cap = amounts(h, &o.resources)
+                        .iter()
+                        .all(|(r, a)| o.resources.get(*r).copied().unwrap_or(0) >= *a);
+                    let free_now = match &o.assignment {
+                        WorkerAssignmentSnapshot::Sn { free, .. } => amounts(h, &o.resources)
                             .iter()
-                            .all(|(r, a)| o.free.get(*r).copied().unwrap_or(0) >= *a)
+                            .all(|(r, a)| free.get(*r).copied().unwrap_or(0) >= *a),
+                        WorkerAssignmentSnapshot::Mn { .. } => false,
+                    };
+                    // a worker that has reported the request as blocked is too busy to start it
+                    // even if the server's books show room
+                    let free_now = free_now
+                        && !o.blocked_requests.contains(&(h.resource_rq_id, 0.into()));
+                    cap && !free_now
                 });
                 if excused {
                     self.probes.hit("c15_excused_by_busy_capable_worker");
@@ -2214,15 +2241,74 @@ impl Checker {
                     .any(|l| prio(l) < ph && l.resource_rq_id == h.resource_rq_id);
                 let _ = (heterogeneous, busy);
                 let any_all = uses_all(h) || dw.iter().any(|d| uses_all(d));
+                // The scheduler's encoding lets, per worker, as many tasks of a lower class run
+                // as fit beside the maximal number of tasks of the waiting higher class ("gap"),
+                // whatever else is placed there (known approximation). Is this inversion of
+                // that kind? Recomputed here from the free resources before the round.
+                let within_gap = !any_all && {
+                    let ha = amounts(h, &w.snap.resources);
+                    let max_h = ha
+                        .iter()
+                        .filter(|(_, a)| *a > 0)
+                        .map(|(r, a)| w.free.get(*r).copied().unwrap_or(0) / *a)
+                        .min()
+                        .unwrap_or(0);
+                    let mut rem = w.free.clone();
+                    for (r, a) in &ha {
+                        if *r < rem.len() {
+                            rem[*r] = rem[*r].saturating_sub(max_h * *a);
+                        }
+                    }
+                    // per lower class on this worker: all its tasks dispatched here
+                    let mut per_class: BTreeMap<u32, (u64, &tako::verif::TaskSnapshot)> =
+                        BTreeMap::new();
+                    for l in dw.iter().filter(|l| prio(l) < ph) {
+                        per_class.entry(l.resource_rq_id.as_num()).or_insert((0, *l));
+                    }
+                    for d in dw.iter() {
+                        if let Some(e) = per_class.get_mut(&d.resource_rq_id.as_num()) {
+                            e.0 += 1;
+                        }
+                    }
+                    per_class.iter().all(|(class, (count, l))| {
+                        let gap = amounts(l, &w.snap.resources)
+                            .iter()
+                            .filter(|(_, a)| *a > 0)
+                            .map(|(r, a)| rem.get(*r).copied().unwrap_or(0) / *a)
+                            .min()
+                            .unwrap_or(0);
+                        // the encoding's limit is per worker: (tasks of the class that are not
+                        // lower than the waiting one, counted for the whole queue) + gap
+                        let not_lower = ready
+                            .iter()
+                            .filter(|t| t.resource_rq_id.as_num() == *class && prio(t) >= ph)
+                            .count() as u64;
+                        *count <= not_lower + gap
+                    })
+                };
                 let key = format!(
-                    "w{}-c{}-l{}-{}-{}{}",
+                    "w{}-c{}-l{}-{}-{}{}{}",
                     workers.len().min(4),
                     classes.len().min(4),
                     levels.len().min(4),
                     if pure { "pure" } else { "mixed" },
                     if same_class { "sameclass" } else { "crossclass" },
-                    if any_all { "-all" } else { "" }
+                    if any_all { "-all" } else { "" },
+                    if same_class || any_all {
+                        ""
+                    } else if within_gap {
+                        "-withingap"
+                    } else {
+                        "-beyondgap"
+                    }
                 );
+                // an inversion of the known kind must not hide another one of the same round
+                if within_gap && !same_class {
+                    if deferred.is_none() {
+                        deferred = Some((key, h.id, ph, h.resource_rq_id, w.id, w.free.clone(), lower));
+                    }
+                    continue;
+                }
                 fnd(
                     out,
                     "C15",
@@ -2242,6 +2328,21 @@ impl Checker {
                 );
                 return;
             }
+        }
+        if let Some((key, hid, ph, hrq, wid, wfree, lower)) = deferred {
+            fnd(
+                out,
+                "C15",
+                "lower-priority-dispatched-over-fitting-higher",
+                key,
+                format!(
+                    "round at step {step}: task {hid} (priority {ph}, request {hrq}) stays ready although it fits on worker {wid} (free {wfree:?}) once the lower-priority tasks {lower:?} dispatched there are left out (their number is within what fits beside the maximal number of tasks of the waiting class); {} workers, {} request classes, {} priority levels",
+                    workers.len(),
+                    classes.len(),
+                    levels.len()
+                ),
+                step,
+            );
         }
     }
 
